@@ -23,3 +23,6 @@ def run(prog, rep):
     r_del.run_section_selflink(prog, rep)
     from ..rules import r_del as _rdbh
     _rdbh.run_backend_by_handle(prog, rep)
+    # validity == link count > 0 holds only while no leaked id keeps an unlinked container group (and its links) alive (C04j)
+    from ..rules import r_close as _rcr4
+    _rcr4.run_release(prog, rep)
